@@ -175,11 +175,15 @@ fn main() {
         "lifted" => {
             // prologue/epilogue templates assembled by llvm-mc (corpus/c17/*.hex), lifted by the real translators
             let dir = fv::arg_str("corpus", "/verif/corpus/c17");
-            let mut files: Vec<String> = std::fs::read_dir(&dir).unwrap()
-                .filter_map(|e| e.ok().map(|e| e.file_name().to_string_lossy().to_string()))
-                .filter(|n| n.ends_with(".hex")).collect();
+            // several directories may be given, separated by commas
+            let mut files: Vec<(String, String)> = Vec::new();
+            for d in dir.split(',') {
+                files.extend(std::fs::read_dir(d).unwrap()
+                    .filter_map(|e| e.ok().map(|e| e.file_name().to_string_lossy().to_string()))
+                    .filter(|n| n.ends_with(".hex")).map(|n| (d.to_string(), n)));
+            }
             files.sort();
-            for name in files {
+            for (dir, name) in files {
                 let archname = name.split('_').next().unwrap().to_string();
                 let text = std::fs::read_to_string(format!("{}/{}", dir, name)).unwrap();
                 let hex = text.trim();
